@@ -16,7 +16,8 @@ that produces the "resulting" display alignment.  The reading, supported by src/
 of the filter (text anchored in the upper half of the frame stays at the top, everything else goes to the bottom):
 horizontal writing modes only, the anchor of a `before` region is its top edge, of an `after` region its bottom edge, of a
 `center` region its middle or its bottom edge (either accepted); anchor < 50 % of the root height -> before, > 50 % -> after,
-(almost) exactly 50 % -> either.  Vertical writing modes, regions positioned from the bottom/right edge and lengths that cannot
+(almost) exactly 50 % -> either, except that a `before` region whose top edge is exactly the middle of the frame lies wholly in
+the lower half and must end `after`.  Vertical writing modes, regions positioned from the bottom/right edge and lengths that cannot
 be resolved are undecided: both values are accepted.
 """
 from fractions import Fraction
@@ -89,9 +90,12 @@ def align_options(writing_mode, display_align, span):
     anchors = [top + h / 2, top + h]
   out = set()
   for a in anchors:
-    if abs(a - 50) <= EPS:
+    if a == 50 and display_align == "before":
+      out.add("after")        # the top edge is the middle of the frame: the region lies wholly in the lower half
+    elif abs(a - 50) <= EPS:
       return both
-    out.add("before" if a < 50 else "after")
+    else:
+      out.add("before" if a < 50 else "after")
   return out
 
 
